@@ -57,6 +57,9 @@ class Module:
         from .normalize import FLATTENED
         if FLATTENED.get(name):
             self.normal_form["flattened_bases"] = FLATTENED[name]
+        from .normalize import MOVED
+        if MOVED.get(name):
+            self.normal_form["moved_in"] = MOVED[name]
         SHARED = (ast.expr_context, ast.boolop, ast.operator, ast.unaryop, ast.cmpop)   # CPython shares one instance of each per interpreter
         # document order of the NORMAL FORM (inlined code keeps the line numbers of where it was written, for reports; order
         # questions - does this store precede that use? - are answered with pos(), never with line numbers)
